@@ -149,7 +149,9 @@ OtherPreds(c, s, op, r, o, mb) ==
      <<"C18", "TruncateSetsCapacity", r.k = "ok" /\ o.cap = Max(op.v, s.obs.alloc)>>,
      <<"C18", "TruncateKeepsState", o.alloc = s.obs.alloc /\ o.disc = s.obs.disc /\ o.fl = s.obs.fl
                                     /\ o.minseg = s.obs.minseg>>,
-     <<"C18", "TruncateKeepsBytes", mb.bytesKept>> >>
+     <<"C18", "TruncateKeepsBytes", mb.bytesKept>>,
+     \* file backend: the whole new capacity is backed by the file (the arena may be mapped at an offset into it)
+     <<"C18", "FileBacksNewCapacity", ("flen" \notin DOMAIN r) \/ r.flen >= r.foff + o.cap>> >>
   ELSE <<>>
 
 \* ------------------------------------------------------------- after every step
